@@ -20,6 +20,9 @@ elif args and args[0] == '--round3':
 if args and args[0] == '--round4':
     base, letters = '/tmp/mut4', ('h', 'i')
     args = args[1:]
+if args and args[0] == '--round10':
+    base, letters = '/tmp/mut10', ('t', 'u')
+    args = args[1:]
 if args and args[0] == '--round9':
     base, letters = '/tmp/mut9', ('r', 's')
     args = args[1:]
